@@ -200,6 +200,20 @@ def check_domains(ctx):
             skips = [n for n in ast.walk(loops[0]) if isinstance(n, ast.Continue)]
             ok = bool(stores) and src is not None and not rebuilt and not skips
             why = 'stores %d, built from `%s`, rebuilt/filtered %s, skipped iterations %d' % (len(stores), src, [U(x)[:50] for x in rebuilt], len(skips))
+        if not loops and dom_name:
+            # the whole table at once: D = {col: <size> for col in data.domain} - every attribute, in the input's order; an `if` in the comprehension
+            # leaves attributes out (entries added later come AFTER the others: the returned domain is a permutation of the input's)
+            comps = [a for a in walk_shallow(fi.node) if isinstance(a, ast.Assign) and len(a.targets) == 1 and isinstance(a.value, ast.DictComp)
+                     and len(a.value.generators) == 1 and U(a.value.generators[0].iter) in (data + '.domain', data + '.domain.attrs')
+                     and U(a.value.key) == U(a.value.generators[0].target)]
+            built = [a for a in walk_shallow(fi.node) if isinstance(a, ast.Assign) and len(a.targets) == 1 and U(a.targets[0]) == dom_name
+                     and isinstance(a.value, ast.Call) and U(a.value.func) == 'Domain.fromdict' and a.value.args]
+            if len(comps) == 1 and len(built) == 1 and U(built[0].value.args[0]) == U(comps[0].targets[0]):
+                filt = comps[0].value.generators[0].ifs
+                ok = not filt
+                why = 'table built at once over `%s`%s' % (U(comps[0].value.generators[0].iter), '' if ok else
+                                                           ', but only for the attributes with `%s`: the rest is added afterwards, behind them - the attribute '
+                                                           'ORDER of the returned domain is no longer the input\'s' % U(filt[0])[:50])
         ctx.ob('domain-restored', fi, loops[0] if loops else fi.node, ok,
                '%s must give every attribute of its input an entry of the domain it returns (unconditional store per attribute, no '
                'filtering afterwards): an attribute dropped here is never restored by the undo map; %s' % (q, why))
